@@ -1,0 +1,23 @@
+//go:build verif
+
+package parser
+
+import "github.com/ajitpratap0/GoSQLX/pkg/sql/token"
+
+// VerifAdvanceTrace positions the cursor on the first token the way the parse entry points do and
+// returns (cursor position, current token type) after 0, 1, ..., n calls of advance().
+// For the verification harness only.
+func (p *Parser) VerifAdvanceTrace(tokens []token.Token, n int) [][2]int {
+	p.tokens = tokens
+	p.currentPos = 0
+	if len(tokens) > 0 {
+		p.currentToken = tokens[0]
+	}
+	out := make([][2]int, 0, n+1)
+	out = append(out, [2]int{p.currentPos, int(p.currentToken.Type)})
+	for i := 0; i < n; i++ {
+		p.advance()
+		out = append(out, [2]int{p.currentPos, int(p.currentToken.Type)})
+	}
+	return out
+}
